@@ -15,9 +15,15 @@ Print Assumptions C11_lfn_valid_spec.
 
 (* invalid names are rejected with ValueError and nothing is produced *)
 Theorem C11_invalid_rejected :
-  forall (name up : list N) (existing : list (list N * list N)) (entry : list N), is_dot_name name = false -> vfat_valid name = false -> create_records name up existing entry = Err ValueError.
+  forall (name up : list N) (existing : list (list N * list N)) (entry : list N), vfat_valid name = false -> create_records name up existing entry = Err ValueError.
 Proof. exact FatNames.ProofsValid.invalid_rejected. Qed.
 Print Assumptions C11_invalid_rejected.
+
+(* "." and ".." are references, never names: no entry is created under them (the guard of the FatPath mutators is a fact regenerated from path.py) *)
+Theorem C11_dot_names_rejected :
+  forall (name up : list N) (existing : list (list N * list N)) (entry : list N), is_dot_name name = true -> create_records name up existing entry = Err ValueError.
+Proof. exact FatNames.ProofsValid.dot_names_rejected. Qed.
+Print Assumptions C11_dot_names_rejected.
 
 Theorem C11_too_long_rejected :
   forall (name up : list N) (existing : list (list N * list N)), existsb is_surrogate name = false -> (255 < length (utf16 name))%nat -> get_names name up existing = Err ValueError.
